@@ -154,6 +154,21 @@ def wrapper_delegates(F, wpath_prefix, inner_field, method):
     return True, inner_impl
 
 
+def constrain_rules(ck, F, rule):
+    """constrain(lc) appends exactly the given linear combination, unconditionally, on both roles"""
+    for role in ("prover", "verifier"):
+        try:
+            s_ = summary(F, role, "constrain", None)
+        except Unanalysable as u:
+            ck.fail(rule, f"constrain:{role}", f"unanalysable: {u.msg}", u.where, kind="unanalysable")
+            continue
+        ck.require(s_["constraints"] == "1" and s_["count"] == "0" and not s_["errors"], rule, f"constrain:{role}", f"constrain must append exactly one constraint, unconditionally: {s_['constraints']} appended, exits {s_['errors']}")
+        cs = s_["R"]["state"].fields["constraints"]
+        last = cs.index(q) if isinstance(cs, Vec) and eq(cs.length(), q + 1) else None
+        okl = isinstance(last, Struct) and isinstance(last.fields["terms"], Vec) and eq(last.fields["terms"].length(), isym("len_lc"))
+        ck.require(okl, rule, f"constrain-stores-arg:{role}", "constrain must store the given linear combination unchanged")
+
+
 def body(ck, F, cfg):
     if _TIER == "thorough" and cfg == "default":
         from .. import witness
@@ -206,14 +221,7 @@ def body(ck, F, cfg):
                         okc = pre_ok and isinstance(last, Tup) and isinstance(last.items[0], Enum) and last.items[0].variant == var and eq(last.items[0].payload[0].e, c) and isinstance(last.items[1], Sc) and eq(last.items[1].e, -1)
             ck.require(okc, "R16.1", f"multiply-constraint:{role}:{nm}", f"{role}'s multiply must record the constraint {nm} - {var}(new gate) = 0 (the given terms followed by the new wire with coefficient -1); {why}")
     ck.sample({"transition": "allocate, pending=None", "summary": str(summary(F, "verifier", "allocate", None)["ret"])})
-    # constrain: unconditional push on both roles
-    for role in ("prover", "verifier"):
-        s_ = summary(F, role, "constrain", None)
-        ck.require(s_["constraints"] == "1" and s_["count"] == "0" and not s_["errors"], "R16.1", f"constrain:{role}", f"constrain must append exactly one constraint, unconditionally: {s_['constraints']} appended, exits {s_['errors']}")
-        cs = s_["R"]["state"].fields["constraints"]
-        last = cs.index(q) if isinstance(cs, Vec) else None
-        okl = isinstance(last, Struct) and isinstance(last.fields["terms"], Vec) and eq(last.fields["terms"].length(), isym("len_lc"))
-        ck.require(okl, "R16.1", f"constrain-stores-arg:{role}", "constrain must store the given linear combination unchanged")
+    constrain_rules(ck, F, "R16.1")
     # R16.3 half-open gate on the prover
     R = run_method(F, "prover", "allocate", None)
     sec = R["state"].fields["secrets"].fields
